@@ -20,6 +20,7 @@
 -/
 import RedisVerif.Model.NMap
 import RedisVerif.Model.SimRng
+import RedisVerif.Model.SimKernel
 
 namespace RedisVerif.SimHarness
 open RedisVerif RedisVerif.SimRng
@@ -243,8 +244,145 @@ def runCrdt (harness : String) (seed ops n dropBits : Nat) : Option String :=
     | _ => none
   out.map fun r => match r with | .ok s => s | .error e => e
 
+/-! ## `simulator::dst::DSTSimulation` over `simulator::crash::CrashSimulator`
+
+`CrashSimulator::node_states` is a `HashMap<HostId, NodeState>`; `DSTSimulation::step` iterates
+`crashed_nodes()` — the map's iteration order — and draws from the RNG per element.  The order is
+an explicit input `pi` here (the order of ALL node ids in the map; it is fixed for the lifetime of
+one simulation because keys are only ever overwritten).  The sampler is abstract so that the
+order-dependence can be stated without evaluating ChaCha (Props/C20). -/
+
+structure Sampler (σ : Type) where
+  range : Nat → Nat → σ → Except String (Nat × σ)
+  bool : Nat → σ → Except String (Bool × σ)
+
+/-- the real generator: `SimulatedRng` -/
+def chacha : Sampler Rng := ⟨range, bool⟩
+
+inductive NState where
+  | running
+  | crashed (t : Nat)
+  | recovering (start exp : Nat)
+  deriving DecidableEq, Repr, Inhabited
+
+def NState.isCrashed : NState → Bool
+  | .crashed _ => true
+  | _ => false
+
+structure DstCfg where
+  n : Nat
+  /-- `FaultConfig::get("process.crash")` of the configuration `with_config` installs, as bits -/
+  crashProb : Nat
+  enableCrash : Bool
+  skew : Bool
+  skewRange : Nat
+  driftRange : Nat
+  minRec : Nat
+  maxRec : Nat
+  maxTime : Nat
+  deriving Repr
+
+structure Dst (σ : Type) where
+  g : σ
+  now : Nat := 0
+  nodes : List NState
+  crashes : Nat := 0
+  recoveries : Nat := 0
+  ops : Nat := 0
+
+def bits_0_1 : Nat := 0x3FB999999999999A
+
+section
+variable {σ : Type} (S : Sampler σ)
+
+/-- `with_config`: per node, when clock skew is enabled, two draws (offset, drift) -/
+def dstInit (c : DstCfg) (g : σ) : Except String (Dst σ) := do
+  let g ← (List.range c.n).foldlM (fun g _ => do
+    if c.skew then
+      let (_, g) ← S.range 0 c.skewRange g
+      let (_, g) ← S.range 0 c.driftRange g
+      pure g
+    else pure g) g
+  pure { g := g, nodes := List.replicate c.n .running }
+
+/-- `CrashSimulator::advance_time`: every recovering node whose completion time has come runs
+    again (each node independently: the map order cannot matter) -/
+def completeRecoveries (now : Nat) (nodes : List NState) : List NState × Nat :=
+  nodes.foldr (fun s (acc : List NState × Nat) =>
+    match s with
+    | .recovering _ e => if now ≥ e then (.running :: acc.1, acc.2 + 1) else (s :: acc.1, acc.2)
+    | _ => (s :: acc.1, acc.2)) ([], 0)
+
+/-- `should_buggify(rng, "process.crash")` with the configured probability -/
+def crashDecision (c : DstCfg) (g : σ) : Except String (Bool × σ) :=
+  let p := F64.ofBits c.crashProb
+  if !p.isNaN && (p.neg || p.isZero) then pure (false, g)
+  else do
+    let (v, g) ← S.range 0 1000000 g
+    pure (SimKernel.buggifyTriggered v p, g)
+
+/-- `for node in 0..node_count { if running { maybe_crash_node } }` -/
+def crashLoop (c : DstCfg) (d : Dst σ) : Except String (Dst σ) :=
+  (List.range c.n).foldlM (fun d i => do
+    if d.nodes.getD i .running == .running && c.enableCrash then
+      let (t, g) ← crashDecision S c d.g
+      if t then pure { d with g := g, nodes := d.nodes.set i (.crashed d.now), crashes := d.crashes + 1 }
+      else pure { d with g := g }
+    else pure d) d
+
+/-- `for node in crashed_nodes() { if gen_bool(0.1) { start_recovery(node) } }` — `order` is the
+    iteration order of the map; the list of crashed nodes is taken once, before the loop -/
+def recoverLoop (c : DstCfg) (order : List Nat) (d : Dst σ) : Except String (Dst σ) :=
+  (order.filter fun i => (d.nodes.getD i .running).isCrashed).foldlM (fun d i => do
+    let (b, g) ← S.bool bits_0_1 d.g
+    if b then
+      let (dur, g) ← S.range c.minRec c.maxRec g
+      pure { d with g := g, nodes := d.nodes.set i (.recovering d.now (d.now + dur)) }
+    else pure { d with g := g }) d
+
+/-- `DSTSimulation::step` -/
+def dstStep (c : DstCfg) (pi : List Nat) (d : Dst σ) : Except String (Dst σ) := do
+  let (adv, g) ← S.range 1 100 d.g
+  let now := d.now + adv
+  let (nodes, rec) := completeRecoveries now d.nodes
+  let d := { d with g := g, now := now, nodes := nodes, recoveries := d.recoveries + rec }
+  let d ← crashLoop S c d
+  let d ← recoverLoop S c pi d
+  pure { d with ops := d.ops + 1 }
+
+end
+
+def showNState : NState → String
+  | .running => "R"
+  | .crashed t => s!"C{t}"
+  | .recovering a b => s!"V{a}-{b}"
+
+def dstLoop (c : DstCfg) (pi : List Nat) : Nat → Nat → Dst Rng → List String → Except String (Dst Rng × List String)
+  | 0, _, d, acc => pure (d, acc)
+  | fuel + 1, k, d, acc => do
+    let d ← dstStep chacha c pi d
+    let line := s!"{k} now={d.now} {" ".intercalate (d.nodes.map showNState)}"
+    if d.now ≥ c.maxTime then pure (d, line :: acc) else dstLoop c pi fuel (k + 1) d (line :: acc)
+
+def runDst (seed ops : Nat) (c : DstCfg) (pi : List Nat) : String :=
+  match (do
+    let d ← dstInit chacha c (Rng.new seed.toUInt64)
+    dstLoop c pi ops 1 d []) with
+  | .error e => e
+  | .ok (d, acc) =>
+    let resLine := s!"result time={d.now} ops={d.ops} crashes={d.crashes} recoveries={d.recoveries} lin=true conv=true errors=0 history=0"
+    s!"{traceDigest (acc.reverse ++ [resLine])} | {resLine}"
+
 /-- dispatcher of the `RUN <harness> <label> <seed> <ops> <cfg…>` op -/
 def run (harness : String) (seed ops : Nat) (cfg : List Nat) : Option String :=
+  if harness == "dst" then
+    match cfg with
+    | n :: prob :: en :: skew :: sr :: dr :: minR :: maxR :: maxT :: pi =>
+      if pi.length == n then
+        some (runDst seed ops ⟨n, prob, en == 1, skew == 1, sr, dr, minR, maxR, maxT⟩ pi)
+      else none
+    | _ => none
+  else
   match cfg with
   | [n, dropBits] => runCrdt harness seed ops n dropBits
   | _ => none
